@@ -2,10 +2,12 @@ package props
 
 import (
 	"strings"
+	"sync"
 
 	"github.com/AdguardTeam/urlfilter/rules"
 
 	"verifharness/internal/core"
+	"verifharness/internal/gen"
 	"verifharness/internal/ref"
 )
 
@@ -59,7 +61,55 @@ func c03Sampled(t core.Tier) int {
 	return 3000
 }
 
+func c03RealCount(t core.Tier) int {
+	if t == core.Thorough {
+		return 30000
+	}
+
+	return 2500
+}
+
+var (
+	c03RealPatterns []string
+	c03RealOnce     sync.Once
+)
+
+// c03LoadReal collects the mask patterns of the bundled lists.
+func c03LoadReal(env *core.Env) {
+	c03RealOnce.Do(func() {
+		seen := map[string]bool{}
+		for _, f := range []string{"testdata/easylist.txt", "examples/proxy/adguard_russian_filter.txt", "testdata/adguard_sdn_filter.txt"} {
+			for _, l := range gen.ReadLines(env.RepoDir, f) {
+				r, err := rules.NewRule(l, 1)
+				nr, ok := r.(*rules.NetworkRule)
+				if err != nil || !ok || nr.IsRegexRule() {
+					continue
+				}
+				p := rules.VerifPattern(nr)
+				if !seen[p] && len(p) < 120 {
+					seen[p] = true
+					c03RealPatterns = append(c03RealPatterns, p)
+				}
+			}
+		}
+	})
+}
+
 func c03PatternOf(c *core.Ctx, idx int) (pattern string, enumerated bool) {
+	if nr := c03RealCount(c.Env.Tier); idx < nr {
+		if len(c03RealPatterns) == 0 {
+			return "||example.org^", false
+		}
+		// A stride through the list that depends on the seed.
+		k := (idx*7919 + int(c.Env.Seed)*104729) % len(c03RealPatterns)
+		if k < 0 {
+			k += len(c03RealPatterns)
+		}
+
+		return c03RealPatterns[k], false
+	} else {
+		idx -= nr
+	}
 	n := idx
 	for _, b := range c03Blocks(c.Env.Tier) {
 		if n < b.count {
@@ -361,7 +411,7 @@ func init() {
 	core.Register(&core.Prop{
 		ID:    "C03",
 		Level: "exploration",
-		Rule: "patterns: every token string of length 1..3 (thorough: 1..4) over the 20 tokens {a B . / ? + ( ) [ ] { } \\ $ ^ * | - % :}, also ||-prefixed, /*-suffixed and pipe-wrapped forms, plus PRNG-sampled longer patterns; " +
+		Rule: "patterns: every token string of length 1..3 (thorough: 1..4) over the 20 tokens {a B . / ? + ( ) [ ] { } \\ $ ^ * | - % :}, also ||-prefixed, /*-suffixed and pipe-wrapped forms, plus PRNG-sampled longer patterns and the distinct mask patterns of the three bundled real lists (quick 2500, thorough 30000 of them, strings up to length 3 plus witnesses); " +
 			"strings: per pattern all strings up to length 4 (thorough 5) over the pattern's own characters in both cases plus one unrelated letter, '/', '.', wrapped in 4..12 scheme/subdomain prefixes, plus witnesses walked from the pattern and their one-edit neighbours (those also through NetworkRule.Match); " +
 			"oracle = hand-written token matcher vs. the rule's own compiled regexp (hook VerifPrepared); non-trivial = pattern for which the reference accepts some but not all strings; distinct by (pattern, match-case)",
 		Assumptions: []string{
@@ -370,7 +420,8 @@ func init() {
 			"START_URL and the separator class are specified by the library's documented constants",
 			"this is bounded string enumeration, not language equivalence: a disagreement that needs a string longer than the bound and outside the witness set is missed",
 		},
-		Cases: func(t core.Tier) int { return c03Enumerated(t) + c03Sampled(t) },
+		Setup: c03LoadReal,
+		Cases: func(t core.Tier) int { return c03RealCount(t) + c03Enumerated(t) + c03Sampled(t) },
 		Run:   c03Run,
 	})
 }
